@@ -106,10 +106,14 @@ def check(ctx):
               "a factor with a failing trial is reported", "reporting of failing factors changed")
     f = ctx.fn("primitive:DerivedFactor.test_trial")
     rf = Roles(f)
-    sel = [s for s in rf.stmts if isinstance(s, ast.If)]
-    ctx.check(len(sel) == 1 and str(rf.at(sel[0], sel[0].test)) == "(level == trial_sequence[self][i])", R, f, "level present",
-              "the predicate of the level actually present is evaluated", "DerivedFactor.test_trial selects the level by `%s`" % (
-                  str(rf.at(sel[0], sel[0].test)) if sel else "?"))
+    # the predicate is evaluated under the path condition "this level is the one present at the trial" (an if around it, or a guard
+    # `if not (..): continue` before it)
+    from ..facts import Facts as _Facts
+    F17t = _Facts(f)
+    pr_ = [s for s in F17t.stmts if isinstance(s, ast.AugAssign) and "predicate" in ast.unparse(s.value)]
+    pc = sorted(F17t.conds(pr_[0])) if len(pr_) == 1 else None
+    ctx.check(pc == ["(level == trial_sequence[self][i])"], R, f, "level present",
+              "the predicate of the level actually present is evaluated", "DerivedFactor.test_trial evaluates the predicate under `%s`" % pc)
     ta = _one_call(ctx, rf, "_trial_arguments", f)
     ctx.check(str(rf.at(ta[1], ta[0])) == "level._trial_arguments(trial_sequence, i, sustain_count)", R, f, "arguments",
               "window arguments of the trial under test", "_trial_arguments call changed: %s" % rf.at(ta[1], ta[0]))
